@@ -799,10 +799,27 @@ def _calls_in(node, attr):
     return [c for c in ast.walk(node) if isinstance(c, ast.Call) and isinstance(c.func, ast.Attribute) and c.func.attr == attr]
 
 
-def stmts_mention_x_after_none(path):
+def _none_tests(fx):
+    """texts of the test `self.x is None`, also through a local that only stands for self.x (`x = self.x`, assigned once,
+    self.x not rebound in the function)"""
+    names = ['self.x']
+    stores = {}
+    for n in walk_no_nested(fx.node):
+        if isinstance(n, ast.Name) and isinstance(n.ctx, ast.Store):
+            stores[n.id] = stores.get(n.id, 0) + 1
+    rebinds_x = any(isinstance(n, ast.Attribute) and n.attr == 'x' and isinstance(n.ctx, ast.Store) and norm(n.value) == 'self'
+                    for n in walk_no_nested(fx.node))
+    for st in fx.node.body:
+        if isinstance(st, ast.Assign) and len(st.targets) == 1 and isinstance(st.targets[0], ast.Name) and norm(st.value) == 'self.x' \
+                and stores.get(st.targets[0].id) == 1 and not rebinds_x:
+            names.append(st.targets[0].id)
+    return {t % n_ for n_ in names for t in ('%s is None', '%s == None')}
+
+
+def stmts_mention_x_after_none(path, tests_none=('self.x is None', 'self.x == None')):
     """the branch taken for `self.x is None` is the last test of the path (the chain ends there)"""
     tests = [norm(t[1]) for t in path if isinstance(t, tuple)]
-    return bool(tests) and tests[-1] not in ('self.x is None', 'self.x == None')
+    return bool(tests) and tests[-1] not in tests_none
 
 
 def rule_sweep_init(ctx):
@@ -901,7 +918,7 @@ def rule_sweep_init(ctx):
             continue
         if any(isinstance(s_, ast.Assign) and any(isinstance(t, ast.Attribute) and t.attr == 'xbar' and norm(t.value) == 'self' for t in s_.targets) for s_ in stmts):
             r.ok(construct='xbar_from_x:path%d' % i)
-        elif any(isinstance(t, tuple) and norm(t[1]) in ('self.x is None', 'self.x == None') for t in path) and not stmts_mention_x_after_none(path):
+        elif any(isinstance(t, tuple) and norm(t[1]) in _none_tests(fx) for t in path) and not stmts_mention_x_after_none(path, _none_tests(fx)):
             r.ok(construct='xbar_from_x:path%d:no-output' % i, sample='xbar_from_x: a node without output (self.x is None) has no adjoint')
         else:
             conds = [norm(t[1])[:40] for t in path if isinstance(t, tuple)]
